@@ -599,7 +599,7 @@ func (p *pool) report() {
 	for i := range p.cases {
 		c := &p.cases[i]
 		fam := c.Family
-		if c.Family != "config-matrix" && c.Family != "nil-arguments" && c.Family != "crl-der-byte-mutation" && c.Family != "reader-seam" {
+		if c.Family != "config-matrix" && c.Family != "nil-arguments" && c.Family != "crl-der-byte-mutation" && c.Family != "reader-seam" && c.Family != "hostile-repository" {
 			fam += ":" + c.Kind
 		}
 		s := stats[fam]
@@ -695,6 +695,7 @@ func main() {
 		"allocation ceiling: runtime.MemStats.TotalAlloc delta of one call <= 256 MiB for inputs <= 64 KiB, measured in single-threaded workers; a worker killed by the runtime for memory (RLIMIT_AS 8 GiB) counts as runaway allocation",
 		"matrix: extended attribute (none / string / COSE integer label, critical or not) x presented artifact (signed / another one) x UserMetadata (none / satisfied / unsatisfied) are crossed with every other dimension under the digest reference for the signatures that parse (jws, cose); quick crosses them with one revocation option, thorough with all three; the other signature kinds and references keep the default of these three",
 		"one verifier instance per configuration and worker serves all cells dealt to that worker (calls after other calls on the same instance); reader-seam: notation.VerifyBlob must give the verdict of a plain reader however the caller's reader delivers the same bytes, and must not accept when the reader fails after half of the blob",
+		"structural alphabet also holds: the value the same member has in a sibling object of the same path class (a valid value in the wrong place); descriptors handed to FetchSignatureBlob also carry the media type of the other manifest format, an index media type, a negative size and a malformed digest; hostile-repository: a scripted registry.Repository answers notation.Verify with malformed descriptors (digest alphabet without separator / empty / unknown algorithm), empty and several pages and errors at every step; signingkeys: Remove / UpdateDefault / GetDefault with every argument list of up to 3 names (the file's names in any order, repeated, empty, unknown) on freshly loaded instances",
 		"timestamp product (its own family of matrix cells): construction x revocation option x timestamping revocation validator (default / supplied) x level x tsa trust store in the statement x verifyTimestamp x countersignature (none / valid / unrelated TSA / wrong imprint / garbage; forged by lib/tsa) x format x entry point",
 		"oversized plugin output: 'never runaway allocation' is judged relatively for outputs of 160 MiB and 480 MiB (valid answer followed by blanks): at most half of the additional 320 MiB may turn up as additional allocation of the call; the library's own cap is not assumed",
 		"the mutated envelopes of the byte / node families carry no RFC 3161 timestamp; COSE envelopes get the byte neighbourhood only",
@@ -731,6 +732,7 @@ func main() {
 		cases = append(cases, layoutCases(w, r.Thorough())...)
 		cases = append(cases, pluginCases(w, r.Thorough())...)
 		cases = append(cases, oversizedPluginCases()...)
+		cases = append(cases, hostileRepoCases()...)
 		cases = append(cases, timestampCases()...)
 		// the matrix last, its originally stated product before the three extra dimensions: when the internal
 		// deadline stops a run on a loaded machine, what is cut is the tail of the largest family, not whole families
